@@ -45,6 +45,9 @@ class InstrumentationSetupAction(enum.IntEnum):
     COPY_SECOND = enum.auto()
     """The second element of the stack is copied."""
 
+    COPY_THIRD = enum.auto()
+    """The third element of the stack is copied."""
+
     COPY_SECOND_SHIFT_DOWN_TWO = enum.auto()
     """The second element of the stack is copied, and is shifted down two times."""
 
